@@ -44,12 +44,17 @@ claim("C17", "Theorem RDS.C17 (settings = last written per key, clamped, all his
 claim("C19", "PARTIAL. Proved on the multi-instance model: C19_isolation (any interleaving = each instance's own subsequence), C19_other_slots, C19_select, C19_cur. The content of C19 for the implementation (no state outside the struct, no data race) cannot be exhibited by a pure model: "
       "exercised by interleaved-vs-solo twin runs, the writable-segment immutability check and gcc TSan (thorough).", "Lean 4 proof of isolation on the multi-instance model + twin runs, segment diff, TSan (partial)", "§6 C19", "PARTIAL: thread schedules and hidden global state are sampled, not proved.")
 
-PENDING = {
-    "C04": "theorem package (callbacks vs getter changes) still being proved; check will be registered when RdsProps/C04.lean exists",
-    "C11": "table theorem + step theorem being assembled; check will be registered when RdsProps/C11.lean exists",
-    "C18": "reference tables + kernel-checked table theorems being assembled; check will be registered when RdsProps/C18.lean exists",
-    "C20": "cross-build theorems and known-finding handling being assembled",
-}
+claim("C04", "Theorems RDS.C04 (chkC04 for all histories: per registered callback, invocation count = 1 iff that field's getter result changed, RT additionally on a switch discard, AF = exactly the newly listed codes as 87500+100*code, at most two; every event shows its own field at its final value) and RDS.C04_redeliver (immediate re-delivery in normal mode notifies nothing but clock time and changes no getter).",
+      "Lean 4 proof: per-handler event/change characterisation composed over process; correspondence + monitor (incl. getter values sampled inside callbacks)", "§6 C04")
+claim("C11", "Theorems RDS.C11 / C11_generated (ECC and country follow the abstract fields fed only by 1A variant 0 with error-free B and C; country always a valid enumerator, all histories) and the table theorems C11_table (= IEC 62106-4 reference on all 17x256 cells), C11_unknown, C11_range, eccOk over the table regenerated from the compiled library.",
+      "Lean 4 proof: refinement + kernel-checked table theorem over the regenerated table (T1); sweep 17 PI classes x 256 ECC x 8 variants x 2 versions", "§6 C11")
+claim("C18", "Kernel-checked theorems over the complete input/output graph of the five lookup functions read out of the compiled library (all 256 arguments each): C18_pty, C18_pty_width, C18_country_name, C18_country_iso, C18_iso_two_letters, C18_iso_distinct against the hand-written PTY / ISO 3166-1 reference. Exhaustive: the domain is finite and fully enumerated on every run (ASan build: non-NULL, NUL-terminated).",
+      "Lean 4 kernel-checked table theorems over exhaustively extracted lookup graphs (T1)", "§6 C18")
+claim("C20", "PARTIAL + KNOWN FINDING. Proved: every history theorem for both charset instantiations (*_generated), the narrow build's character rule read out of the real build (C20_narrow_table/_is_conv), equal constants/tables across builds (C20_consts), injectivity of the charset on 0x20..0x7E (C20_g0_injective_ascii). "
+      "C20_full_false: the full statement (every level and callback identical) is FALSE of the code and of the model — recorded in known_findings.json by its witness. On every run the four real builds are compared with their own instantiation and with each other; any build-specific divergence other than the known finding is a violation.",
+      "Lean 4 proof (generic-in-configuration theorems, simulation between the two charset instantiations, kernel-checked counter-example) + cross-build differential testing of the four real builds", "§6 C20", "PARTIAL: the full statement is refuted (known finding C20-same-data-on-converted-chars); the no-heap build and cross-build identity are tested, not proved.")
+
+PENDING = {}
 
 def main():
     checks = []
